@@ -346,6 +346,41 @@ pub fn ptr_tables(table: &[Value]) -> Value {
             check("f64", p, c);
         }
     }
+    // Debug / Display behave exactly as on T for every formatter option (alternate, width, fill, alignment, sign, zero padding, precision)
+    {
+        #[derive(Debug, Clone)]
+        #[allow(dead_code)]
+        struct Inner {
+            id: i32,
+            name: String,
+        }
+        unsafe impl Trace for Inner {
+            fn trace(&self, _: &mut rust_cc::Context<'_>) {}
+        }
+        impl rust_cc::Finalize for Inner {}
+        let inner = Inner { id: 7, name: "x".into() };
+        let (ci, cf, cs, cn) = (Cc::new(42i32), Cc::new(2.5f64), Cc::new("ab".to_string()), Cc::new(inner.clone()));
+        let pairs: Vec<(&str, String, String)> = vec![
+            ("{:#?} struct", format!("{:#?}", cn), format!("{:#?}", inner)),
+            ("{:?} struct", format!("{:?}", cn), format!("{:?}", inner)),
+            ("{:>8}", format!("{:>8}", ci), format!("{:>8}", 42i32)),
+            ("{:*^9}", format!("{:*^9}", ci), format!("{:*^9}", 42i32)),
+            ("{:+}", format!("{:+}", ci), format!("{:+}", 42i32)),
+            ("{:05}", format!("{:05}", ci), format!("{:05}", 42i32)),
+            ("{:#x?}", format!("{:#x?}", ci), format!("{:#x?}", 42i32)),
+            ("{:6?}", format!("{:6?}", ci), format!("{:6?}", 42i32)),
+            ("{:.2}", format!("{:.2}", cf), format!("{:.2}", 2.5f64)),
+            ("{:8.3}", format!("{:8.3}", cf), format!("{:8.3}", 2.5f64)),
+            ("{:<5}|", format!("{:<5}|", cs), format!("{:<5}|", "ab")),
+            ("{:?} string", format!("{:?}", cs), format!("{:?}", "ab")),
+        ];
+        for (spec, got, exp) in pairs {
+            rows += 1;
+            if got != exp && bad.len() < 10 {
+                bad.push(json!({"type": "format", "method": spec, "cc": got, "plain": exp}));
+            }
+        }
+    }
     // Default
     let d: Cc<i32> = Default::default();
     let ds: Cc<String> = Default::default();
